@@ -101,8 +101,18 @@ def install(mods):
             txt = read_file(tmpfiles.get_tmp_filename())
             td = text_digest(txt.decode('utf-8', 'replace')) \
                 if txt is not None else None
+            extra = {}
+            if CONFIG.get('check_text'):
+                # the candidate as the tree states it (for oracles that
+                # evaluate the scripted command on it)
+                try:
+                    from vlib import refreader
+                    extra['text'] = refreader.render(
+                        refreader.from_nodes(exprs))
+                except Exception as e:  # noqa
+                    extra['text_error'] = repr(e)
             emit('check', ld=ld, td=td, verdict=bool(res),
-                 dur=time.monotonic() - t0)
+                 dur=time.monotonic() - t0, **extra)
             return res
 
         checker.check_exprs = check_exprs
